@@ -101,6 +101,32 @@ let do_it args =
     String.concat " " (toks @ [fin])
   | _ -> "BADREQ"
 
+(* ---- stream sparse:  M <nr> <nc> <op> ...  (grammar: see harness/drv_sparse.c) *)
+let nats_dot s = if s = "" || s = "-" then [] else List.map (fun x -> nat_of_int (int_of_string x)) (String.split_on_char '.' s)
+let junk_of s = if s = "" || s = "-" then [] else
+  List.map (fun p -> match String.split_on_char '.' p with [a; b] -> (nat_of_int (int_of_string a), nat_of_int (int_of_string b)) | _ -> failwith "junk")
+    (String.split_on_char ':' s)
+let show_lists ls = String.concat ";" (List.map (fun l -> String.concat "." (List.map (fun x -> string_of_int (int_of_nat x)) l)) ls)
+let do_sparse args =
+  match args with
+  | nr :: nc :: ops ->
+    let m = ref (s_allocate (nat_of_int (int_of_string nr)) (nat_of_int (int_of_string nc))) in
+    let nat s = nat_of_int (int_of_string s) in
+    let toks = List.map (fun o ->
+      let a = Array.of_list (String.split_on_char ',' o) in
+      let op = match a.(0) with
+        | "i" -> OInsert (nat a.(1), nat a.(2)) | "f" -> OFind (nat a.(1), nat a.(2)) | "d" -> ODelete (nat a.(1), nat a.(2))
+        | "c" -> OClear | "y" -> OCopy (nat a.(1), nat a.(2), junk_of a.(3))
+        | "R" -> OCopyRows (nats_dot a.(1), junk_of a.(2)) | "C" -> OCopyCols (nats_dot a.(1), junk_of a.(2))
+        | "F" -> OCopyFilled (nats_dot a.(1), nats_dot a.(2), nat a.(3), nat a.(4))
+        | "D" -> ODenseRoundTrip | "e" -> OEmptyRow (nat a.(1)) | "E" -> OEmptyCol (nat a.(1)) | "w" -> OWeightRow (nat a.(1))
+        | _ -> failwith "op" in
+      let (m', res) = sparse_step !m op in
+      m := m';
+      Printf.sprintf "%d=%s|%s|b%df%d" (int_of_nat res) (show_lists m'.rws0) (show_lists m'.cls) (int_of_nat m'.nblocks) (int_of_nat m'.nfree)) ops in
+    "R " ^ String.concat " " toks
+  | _ -> "R BADREQ"
+
 let () =
   try
     while true do
@@ -111,6 +137,7 @@ let () =
       | "B" :: args -> print_endline (do_blk args)
       | "K" :: args -> print_endline (do_kern args)
       | "I" :: args -> print_endline (do_it args)
+      | "M" :: args -> print_endline (do_sparse args)
       | _ -> print_endline "BADREQ"
     done
   with End_of_file -> ()
